@@ -315,14 +315,22 @@ Proof. exact fin_model_passes. Qed.
 Print Assumptions C04_judge_fin_model_passes.
 
 (* sink C04_round. An ARBITRARY outcome of commit.Plugin.Outcome that passes rd_ok satisfies the C03 clauses on the
-   composed round (C03_judge_step_sound: edges, waiting exits, carried cursor, retry identity, progress) and the
-   clause of C04_report_roots_are_agreed (6.). *)
+   composed round (C03_judge_step_sound: edges, waiting exits, carried cursor, retry identity, progress), the
+   clause of C04_report_roots_are_agreed (6.), and the two rounds of C04_liveness_round_partial (7.), hypotheses
+   verbatim, c being the agreed values of the round: a selecting round selects [off, min(on, off+n-1)] for every chain
+   with pending messages; a building round that is not an RMN retry reports every agreed root in a generated report. *)
 Theorem C04_judge_rd_sound : forall F dest max n prev retry aos o,
   rd_ok (F, dest, max, n, prev, retry, aos) o = true ->
   let co := round_cons F dest aos in
   round_P max prev (mkQuery retry None, co) o /\
   (forall c r, co = Some c -> In r (o_roots o) ->
-     (next_state (o_type prev) = Building /\ retry = true /\ In r (o_roots prev)) \/ In r (c_roots c)).
+     (next_state (o_type prev) = Building /\ retry = true /\ In r (o_roots prev)) \/ In r (c_roots c)) /\
+  (forall c k off on, co = Some c -> next_state (o_type prev) = Selecting ->
+     NoDup (map fst (c_off c)) -> (forall k m, alookup k (c_on c) = Some m -> u64 m) -> (1 <= n)%N ->
+     In (k, off) (c_off c) -> alookup k (c_on c) = Some on -> (off <= on)%N ->
+     o_type o = T_selected /\ In (k, (off, N.min on (off + n - 1))) (o_ranges o)) /\
+  (forall c r, co = Some c -> next_state (o_type prev) = Building -> retry = false -> In r (c_roots c) ->
+     o_type o = T_generated /\ In r (o_roots o)).
 Proof. exact (fun F dest max n prev retry aos o => rd_ok_sound (F, dest, max, n, prev, retry, aos) o). Qed.
 Print Assumptions C04_judge_rd_sound.
 
@@ -336,3 +344,150 @@ Theorem C04_judge_rd_before_unsound :
   rd_ok_before jx_in o = true /\ ~ rd_P jx_in o /\ rd_ok jx_in o = false.
 Proof. exact rd_ok_before_unsound. Qed.
 Print Assumptions C04_judge_rd_before_unsound.
+
+(* ---- liveness (7.-10.) and the judge of sink C04_round ---- *)
+(* 7. verbatim for ANY two outcomes that pass rd_ok in consecutive rounds (the second judged with the first as
+      previous outcome); c1, c2 = the agreed values of the two rounds *)
+Theorem C04_judge_rd_two_rounds : forall F dest max n prev retry1 aos1 aos2 o1 o2 c1 c2 k off on r,
+  rd_ok (F, dest, max, n, prev, retry1, aos1) o1 = true ->
+  rd_ok (F, dest, max, n, o1, false, aos2) o2 = true ->
+  round_cons F dest aos1 = Some c1 -> round_cons F dest aos2 = Some c2 ->
+  next_state (o_type prev) = Selecting ->
+  NoDup (map fst (c_off c1)) -> (forall k m, alookup k (c_on c1) = Some m -> u64 m) -> (1 <= n)%N ->
+  In (k, off) (c_off c1) -> alookup k (c_on c1) = Some on -> (off <= on)%N ->
+  In r (c_roots c2) ->
+  o_type o1 = T_selected /\ In (k, (off, N.min on (off + n - 1))) (o_ranges o1) /\
+  o_type o2 = T_generated /\ In r (o_roots o2).
+Proof. exact rd_ok_two_rounds. Qed.
+Print Assumptions C04_judge_rd_two_rounds.
+
+(* before the liveness steps were added to rd_ok: a selecting outcome that selects nothing although the oracles agree
+   on pending messages 10..12 of chain 1, and the empty outcome in a building round although they agree on a root,
+   passed; both are rejected now, the model's outcomes pass (hypotheses of the two theorems above satisfied) *)
+Theorem C04_judge_rd_before_live_weak :
+  (rd_ok_before_live lx_sel_in lx_nothing = true /\ rd_ok lx_sel_in lx_nothing = false /\ ~ rd_P lx_sel_in lx_nothing) /\
+  o_ranges (rd_model lx_sel_in) = [(1, (10, 12))%N] /\ rd_ok lx_sel_in (rd_model lx_sel_in) = true /\
+  (rd_ok_before_live jx_in empty_outcome = true /\ rd_ok jx_in empty_outcome = false /\ ~ rd_P jx_in empty_outcome).
+Proof. exact rd_ok_before_live_weak. Qed.
+Print Assumptions C04_judge_rd_before_live_weak.
+
+Require Import Verif.Proofs.JudgeSoundC04LiveP.
+(* 8. + the steps of 9., with an ARBITRARY outcome that passes rd_ok: under round_live (same-view honest quorum of
+      validated observations, messages pending, interval readable) a selecting round selects the quorum's interval ... *)
+Theorem C04_judge_rd_select_round : forall F dest max n prev retry aos o roles known k f fd (readable : N -> N -> Prop),
+  rd_ok (F, dest, max, n, prev, retry, aos) o = true ->
+  (0 <= F < 2^63)%Z -> (f < 2^63)%Z -> (fd < 2^63)%Z -> (1 <= n)%N ->
+  next_state (o_type prev) = Selecting ->
+  round_live F dest roles known k f fd readable n prev (mkQuery retry None, aos) ->
+  exists off on,
+    same_view offramp_kv aos k fd off /\ same_view onramp_kv aos k f on /\ (off <= on)%N /\
+    readable off (N.min on (off + n - 1)) /\
+    o_type o = T_selected /\ In (k, (off, N.min on (off + n - 1))) (o_ranges o).
+Proof. exact rd_select_round. Qed.
+Print Assumptions C04_judge_rd_select_round.
+
+(* ... and a building round that is not an RMN retry reports the quorum's root of every readable selected interval *)
+Theorem C04_judge_rd_build_round : forall F dest max n prev retry aos o roles known k f fd (readable : N -> N -> Prop),
+  rd_ok (F, dest, max, n, prev, retry, aos) o = true ->
+  (0 <= F < 2^63)%Z -> (f < 2^63)%Z -> (fd < 2^63)%Z ->
+  forall s e,
+  next_state (o_type prev) = Building -> retry = false ->
+  round_live F dest roles known k f fd readable n prev (mkQuery retry None, aos) ->
+  In (k, (s, e)) (o_ranges prev) -> readable s e ->
+  exists a rt,
+    valid_input false roles known dest aos /\ fchain_view F dest k f fd aos /\
+    same_view roots_kv aos k f (k, a, (s, e), rt) /\
+    o_type o = T_generated /\ In (k, (s, e), a, rt) (o_roots o).
+Proof. exact rd_build_round. Qed.
+Print Assumptions C04_judge_rd_build_round.
+
+(* 10., the step: ... and it is the true root if the oracles outside a set of at most f are honest root observers *)
+Theorem C04_judge_rd_build_round_true_root :
+  forall F dest max n prev retry aos o roles known k f fd (readable : N -> N -> Prop),
+  rd_ok (F, dest, max, n, prev, retry, aos) o = true ->
+  (0 <= F < 2^63)%Z -> (f < 2^63)%Z -> (fd < 2^63)%Z ->
+  forall h zero log s e,
+  next_state (o_type prev) = Building -> retry = false ->
+  round_live F dest roles known k f fd readable n prev (mkQuery retry None, aos) ->
+  honest_round h zero log f prev (mkQuery retry None, aos) ->
+  In (k, (s, e)) (o_ranges prev) -> readable s e ->
+  exists a rt, o_type o = T_generated /\ In (k, (s, e), a, rt) (o_roots o) /\ true_root h zero log k s e rt.
+Proof. exact rd_build_round_true_root. Qed.
+Print Assumptions C04_judge_rd_build_round_true_root.
+
+(* 9. for histories of JUDGED outcomes. A judged history (judged) = rounds paired with the outcome the implementation
+      produced, every round passing rd_ok with the outcome that precedes it as previous outcome (each pair is one case
+      of sink C04_round; the harness feeds every outcome back). The statement of C04_liveness with these outcomes in
+      the place of sys_run's: live_all = hist_all along them, eff_tr = number of non-retry rounds, last_out = the
+      outcome after a prefix. So: an implementation all of whose rounds pass the judge is live, with the same bound. *)
+Theorem C04_judge_liveness : forall F dest max n roles known k f fd (readable : N -> N -> Prop) prev tr,
+  u64 max -> (1 <= n)%N -> (0 <= F < 2^63)%Z -> (f < 2^63)%Z -> (fd < 2^63)%Z ->
+  judged F dest max n prev tr ->
+  live_all (round_live F dest roles known k f fd readable n) prev tr ->
+  (max + 2 + 2 <= eff_tr prev tr)%N ->
+  exists pre r1 o1 mid r2 o2 post off on a rt,
+    tr = pre ++ (r1, o1) :: mid ++ (r2, o2) :: post /\
+    (eff_tr prev (pre ++ (r1, o1) :: mid ++ [(r2, o2)]) <= max + 2 + 2)%N /\
+    next_state (o_type (last_out prev pre)) = Selecting /\
+    same_view offramp_kv (snd r1) k fd off /\ same_view onramp_kv (snd r1) k f on /\ (off <= on)%N /\
+    readable off (N.min on (off + n - 1)) /\
+    o_type o2 = T_generated /\ In (k, (off, N.min on (off + n - 1)), a, rt) (o_roots o2).
+Proof. exact judged_liveness. Qed.
+Print Assumptions C04_judge_liveness.
+
+Theorem C04_judge_liveness_fixed_cursor :
+  forall F dest max n roles known k f fd (readable : N -> N -> Prop) off0 prev tr,
+  u64 max -> (1 <= n)%N -> (0 <= F < 2^63)%Z -> (f < 2^63)%Z -> (fd < 2^63)%Z ->
+  judged F dest max n prev tr ->
+  live_all (round_live F dest roles known k f fd (fun s e => s = off0 /\ readable s e) n) prev tr ->
+  (max + 2 + 2 <= eff_tr prev tr)%N ->
+  exists pre r1 o1 mid r2 o2 post on a rt,
+    tr = pre ++ (r1, o1) :: mid ++ (r2, o2) :: post /\
+    (eff_tr prev (pre ++ (r1, o1) :: mid ++ [(r2, o2)]) <= max + 2 + 2)%N /\
+    same_view onramp_kv (snd r1) k f on /\ (off0 <= on)%N /\
+    o_type o2 = T_generated /\ In (k, (off0, N.min on (off0 + n - 1)), a, rt) (o_roots o2).
+Proof. exact judged_liveness_fixed_cursor. Qed.
+Print Assumptions C04_judge_liveness_fixed_cursor.
+
+(* 10. for histories of judged outcomes *)
+Theorem C04_judge_liveness_true_root :
+  forall F dest max n h zero log roles known k f fd (readable : N -> N -> Prop) prev tr,
+  u64 max -> (1 <= n)%N -> (0 <= F < 2^63)%Z -> (f < 2^63)%Z -> (fd < 2^63)%Z ->
+  judged F dest max n prev tr ->
+  live_all (round_live F dest roles known k f fd readable n) prev tr ->
+  live_all (honest_round h zero log f) prev tr ->
+  (max + 2 + 2 <= eff_tr prev tr)%N ->
+  exists pre r1 o1 mid r2 o2 post off on a rt,
+    tr = pre ++ (r1, o1) :: mid ++ (r2, o2) :: post /\
+    (eff_tr prev (pre ++ (r1, o1) :: mid ++ [(r2, o2)]) <= max + 2 + 2)%N /\
+    same_view offramp_kv (snd r1) k fd off /\ same_view onramp_kv (snd r1) k f on /\ (off <= on)%N /\
+    o_type o2 = T_generated /\ In (k, (off, N.min on (off + n - 1)), a, rt) (o_roots o2) /\
+    true_root h zero log k off (N.min on (off + n - 1)) rt.
+Proof. exact judged_liveness_true_root. Qed.
+Print Assumptions C04_judge_liveness_true_root.
+
+(* (a) for histories: the model's own history (queries without bundle) is a judged history, along which live_all and
+   eff_tr are hist_all and eff_count - so C04_liveness is the instance of C04_judge_liveness at the model's outcomes *)
+Theorem C04_judge_model_history_judged : forall F dest max n rs prev,
+  Forall (fun r : round => q_sigs (fst r) = None) rs ->
+  judged F dest max n prev (model_trace F dest max n prev rs) /\
+  (forall P, hist_all lx_cfg F dest max n P prev rs <-> live_all P prev (model_trace F dest max n prev rs)) /\
+  eff_tr prev (model_trace F dest max n prev rs) = CommitSMP.eff_count max n prev (sys_rounds lx_cfg F dest rs).
+Proof.
+  intros F dest max n rs prev H. split; [now apply model_trace_judged|].
+  split; [intros P; apply model_trace_live|apply model_trace_eff].
+Qed.
+Print Assumptions C04_judge_model_history_judged.
+
+(* the hypotheses of C04_judge_liveness are satisfiable: the history of C04_liveness_nonvacuous with the model's
+   outcomes (max = 0: exactly (0+2)+2 non-retry rounds; the report for chain 1 is the last outcome) *)
+Theorem C04_judge_liveness_nonvacuous :
+  let tr := model_trace 1 9 0 256 lx_prev lx_hist in
+  u64 0 /\ (1 <= 256)%N /\ judged 1 9 0 256 lx_prev tr /\
+  live_all (round_live 1 9 lx_roles lx_known 1 1 1 (fun _ _ => True) 256) lx_prev tr /\
+  eff_tr lx_prev tr = (0 + 2 + 2)%N /\
+  map (fun ro : jround => (o_type (snd ro), o_roots (snd ro))) tr =
+  [ (T_generated, [(2, (5, 6), 7, 200)%N]); (T_failed, []); (T_selected, []); (T_selected, []);
+    (T_generated, [(1, (10, 12), 7, 300)%N]) ].
+Proof. exact judged_liveness_hyps. Qed.
+Print Assumptions C04_judge_liveness_nonvacuous.
